@@ -58,6 +58,11 @@ func startProcTLS(kind string, extra ...string) *proc {
 }
 
 func startProcScheme(scheme, kind string, extra ...string) *proc {
+	return startProcSchemes(scheme, "http", kind, extra...)
+}
+
+// startProcSchemes: schemes of the API listener and (leader) of the replication listener.
+func startProcSchemes(scheme, replScheme, kind string, extra ...string) *proc {
 	p := &proc{dir: procRoot(), api: freePort(), repl: freePort(), done: make(chan struct{})}
 	raft, rest, ml := freePort(), freePort(), freePort()
 	args := []string{
@@ -71,7 +76,7 @@ func startProcScheme(scheme, kind string, extra ...string) *proc {
 		"--raft.rtt=10ms", "--raft.election-rtt=10", "--raft.heartbeat-rtt=1", "--log-level=ERROR",
 	}
 	if kind == "leader" {
-		args = append(args, fmt.Sprintf("--replication.address=http://127.0.0.1:%d", p.repl))
+		args = append(args, fmt.Sprintf("--replication.address=%s://127.0.0.1:%d", replScheme, p.repl))
 	}
 	args = append(args, extra...)
 	p.cmd = exec.Command(regattaBin(), args...)
